@@ -12,7 +12,7 @@ use serde_json::json;
 use std::collections::{BTreeMap, HashSet};
 
 const TOKENS: &[&str] = &[
-    "x", "1", "'s'", "'{", "}'", "\n", "\n  ", "#c", "(", ")", "[", "]", "{", "}", ",", ".", ":", "=", "+", "-", "*", "/", "%", "^", "==",
+    "x", "1", "'s'", "'{", "}'", "\n", "\n  ", "\r\n", "#-", "-#", "#c", "(", ")", "[", "]", "{", "}", ",", ".", ":", "=", "+", "-", "*", "/", "%", "^", "==",
     "<", "->", "..", "..=", "...", "|", "||", "@", "_", "?", "if", "then", "else", "for", "in", "while", "loop", "match", "switch", "try",
     "catch", "finally", "throw", "return", "break", "continue", "yield", "and", "or", "not", "let", "export", "import", "from", "as", "debug",
     "self", "null", "true", "+=", "0x", "1e", "r'", "\"", "\\",
@@ -152,6 +152,9 @@ pub fn pool(tier: Tier) -> Vec<(&'static str, &'static str, &'static str)> {
         ("fn-2", "", "(|a, b| a)"),
         ("fn-mutate", "", "(|x| lrecv.push(x))"),
         ("fn-clear", "", "(|x...| lrecv.clear())"),
+        ("fn-pop-id", "fpop = |x, more...|\n  lrecv.pop()\n  mrecv.remove 'a'\n  x\n", "fpop"),
+        ("fn-push-id", "fpush = |x, more...|\n  lrecv.push 0\n  mrecv.insert size(mrecv), 0\n  x\n", "fpush"),
+        ("fn-pop-true", "fpopt = |x, more...|\n  lrecv.pop()\n  mrecv.remove 'a'\n  true\n", "fpopt"),
         ("obj-throwing", "", "othrow"),
         ("generator", "gen = || yield 1\n", "gen()"),
         ("str-slice", "", "sliced"),
@@ -266,7 +269,7 @@ pub fn run(args: &Args) -> i32 {
         }
     };
     record_text(explore_text(crate::lexmc::ALPHA_MAIN, chars, ""), "chars", &mut report);
-    let token_alpha: Vec<&str> = if tier == Tier::Quick { TOKENS.iter().cloned().take(70).collect() } else { TOKENS.to_vec() };
+    let token_alpha: Vec<&str> = if tier == Tier::Quick { TOKENS.iter().cloned().take(73).collect() } else { TOKENS.to_vec() };
     record_text(explore_text(&token_alpha, toks, " "), "tokens", &mut report);
     // corpus prefixes: every line prefix, and every byte prefix of the first part
     let corpus = crate::lexmc::corpus_files();
@@ -276,8 +279,11 @@ pub fn run(args: &Args) -> i32 {
         let mut out = TextOut { n: 0, compiled: 0, formatted: 0, failures: vec![], distinct: HashSet::new() };
         for (b, _) in text.char_indices() {
             if b <= limit || text.as_bytes()[b - 1] == b'\n' {
+              // each prefix as written, and (at line ends) with Windows line endings
+              let crlf = if b > 0 && text.as_bytes()[b - 1] == b'\n' && !text[..b].contains('\r') { Some(text[..b].replace('\n', "\r\n")) } else { None };
+              for input in std::iter::once(text[..b].to_string()).chain(crlf) {
                 out.n += 1;
-                match text_pipeline(&text[..b]) {
+                match text_pipeline(&input) {
                     Ok(o) => {
                         if o & 1 != 0 {
                             out.compiled += 1;
@@ -288,10 +294,11 @@ pub fn run(args: &Args) -> i32 {
                     }
                     Err(p) => {
                         if out.failures.len() < 5 {
-                            out.failures.push((text[..b].to_string(), p));
+                            out.failures.push((input.clone(), p));
                         }
                     }
                 }
+              }
             }
         }
         out
@@ -417,6 +424,14 @@ pub fn run(args: &Args) -> i32 {
                 }
             }
         }
+    }
+    // callbacks / overloaded comparisons that read or mutate the container whose function runs them
+    for prog in crate::schedmc::reentrant_programs() {
+        let call = prog.lines().find(|l| l.starts_with("  r = ")).unwrap_or("").trim().to_string();
+        let lines: Vec<&str> = prog.lines().collect();
+        let eff = lines.iter().position(|l| l.starts_with("cb = |x|") || l.trim_start().starts_with("@<: |o|")).and_then(|i| lines.get(i + 1)).map(|l| l.trim().to_string()).unwrap_or_default();
+        labels.push(format!("re-entrant: `{call}` while its callback / comparison does `{eff}`"));
+        scripts.push(prog.replace("print r\n", "d = '{r}'\n").replace("print l\n", "d = '{l}'\n").replace("print m\n", "d = '{m}'\n").replace("print 'error'\n", "d = '{err}'\n"));
     }
     let answers = crate::workers::run_pool("lib-call", &scripts, threads(), std::time::Duration::from_millis(tier.pick(700, 3000)), tier.pick(600_000, 1_500_000));
     let mut calls_ok = 0u64;
